@@ -1271,6 +1271,9 @@ func (e *Engine) evalDesignator(st *State, env *cenv, x *CExpr) ([]desig, error)
 			if v.K == KSlice {
 				t = v.Base
 			}
+			if v.K == KIface {
+				t = "(iaddr " + v.T + ")"
+			}
 			for _, hn := range baseHeaps {
 				out = append(out, desig{heap: hn, pred: func(a string) string { return "(= (root " + a + ") (root " + t + "))" }})
 			}
